@@ -116,8 +116,13 @@ CLAIMS["C18"] = dict(
           "specification identity -- min_base: value == min outside the band and min - value == (|x-y|-eps)^2/(4 eps) inside "
           "(hence one-sided, tight to eps/4), symmetric; friction: arms mu t^2/(2 sReg) and mu(t - sReg/2), convexity and "
           "Coulomb-bound certificates -- and C0/C1 agreement holds on every switching surface; max/abs are the mirrored "
-          "wrappers. Rounding within a switch is not modelled (assumes eps > safeTol, sReg > 0, 0 < l < 1/2). The corner distance calls the smoothed minimum mirrored by one sign factor on both arguments and the result, with a width that is non-negative for both signs (sign analysis)."
-          ""),
+          "wrappers, checked against their own mirrored specification (not a return-expression template), and the value outside the band "
+          "must be *selected*, not recomputed by cancelling arithmetic. Rounding within a switch is not modelled (assumes eps > safeTol, "
+          "sReg > 0, 0 < l < 1/2). The corner distance is interpreted with the smoothed extrema kept symbolic: for either orientation it must "
+          "be c*smin(c*a, c*b, w) with c = +-1, the same pairs for both orientations and w >= 0 (sign analysis). The functions are read by an "
+          "abstract interpreter (rules/C18_pw.py) that inlines helpers / nested defs / lambdas with Python's argument binding and understands "
+          "where / if_then_else / lax.cond / select / piecewise / IfExp / minimum / maximum / clip / abs / sign / masks-as-numbers, so "
+          "refactorings of these kinds do not change the verdict; a callee it cannot read gives UNDECIDED, never REFUTED."),
     design_ref="DESIGN.md section 4, C18",
     technique="static analysis: extraction of piecewise rational functions from the AST, exact rational normal forms, GLUE (C0/C1) identities and certificate identities per cell")
 
